@@ -192,6 +192,28 @@ def make_case(ctx, g):
             if d3 is not None:
                 compare(ctx, w, d2, d3, fails, edit + "+" + e3)
                 compare(ctx, w, d, d3, fails, edit + "+" + e3 + " (transitive)")
+        # edit a record in place *after* it has been compared / hashed, then compare with a fresh rebuild
+        if g.chance(0.5):
+            conts = [c for c in all_containers(w, [d]) if w.conts[c].records]
+            if conts:
+                c = g.choice(conts)
+                i = g.rng.randrange(len(w.conts[c].records))
+                h = w.rec_at(c, i)
+                rec = w.recs[h]
+                hash(rec)
+                k = g.rng.random()
+                if k < 0.4:
+                    w.add_type(h, QualifiedName(Namespace("ex", "http://example.org/"), "LateType"))
+                elif k < 0.7 and rec.get_type().localpart == "Activity":
+                    w.set_time(h, g.dt(), g.dt() if g.chance(0.5) else None)
+                else:
+                    w.add_attrs(h, [(QualifiedName(Namespace("ex", "http://example.org/"), "late"), g.value(None, ["str", "int"]))])
+                if g.chance(0.5):
+                    w.add_record(c, h)          # a repeated identical record must still collapse
+                ctx.count("edit-after-hash")
+                d4 = rebuild(g, w, b, d, "none")
+                if d4 is not None:
+                    compare(ctx, w, d, d4, fails, "in-place edit after comparison")
         # bundle-level ==
         bs = all_containers(w, [d])[1:]
         bs2 = all_containers(w, [d2])[1:]
